@@ -310,8 +310,9 @@ def c17(tier):
     inst += [(6, {"LSZ": n}) for n in ((0, 4) if tier == "quick" else (0, 1, 4, 8))]
     inst += [(7, {"KEYSEL": k}) for k in (0, 1)]
     inst += [(13, {"SHAPE": s}) for s in (0, 4)]
+    inst += [(15, {"INTO_SHAPE": s}) for s in ((0,) if tier == "quick" else (0, 1, 4))]
     SYMBOLIC_OK = {1, 4, 8, 11, 12, 13, 14}          # targets whose symbolic-ordinal query finishes (measured)
-    NSITES = {2: 10, 3: 10, 5: 5, 6: 6, 7: 10, 9: 14, 10: 10}   # upper bounds on allocation sites (EXPECT asserts vf_count < MAXALLOC)
+    NSITES = {2: 10, 3: 10, 5: 5, 6: 6, 7: 10, 9: 14, 10: 10, 15: 6}   # upper bounds on allocation sites (EXPECT asserts vf_count < MAXALLOC)
     for (t, extra) in inst:
         fails = [None] if t in SYMBOLIC_OK else list(range(0, NSITES.get(t, 10) + 1))
         for fa in fails:
@@ -321,12 +322,12 @@ def c17(tier):
                 d["NSITES"] = NSITES.get(t, 10)
             qs.append(Q("C17_alloc_T%d%s%s" % (t, "".join("_%s%s" % (k[0], v) for k, v in extra.items()), "" if fa is None else "_f%02d" % fa), "h17_alloc.c", defs=d,
                         extra=ICU_NORM_CHEAP + ["stubs/alloc_fault.c"], libtus=["value.c", "map.c", "packet.c", "utils.c"], lib_defs=VF,
-                        unwind=7 if extra.get("LSZ", 0) >= 4 else 5, unwindset=[e.replace(":2", ":3") if extra.get("SHAPE") == 6 else e for e in VAL_REC] + ["memcmp.*:8", "memcpy.*:16", "strlen.*:8"], mode="safety",
+                        unwind=(9 if t == 15 else (7 if extra.get("LSZ", 0) >= 4 else 5)), unwindset=[e.replace(":2", ":3") if extra.get("SHAPE") == 6 else e for e in VAL_REC] + ["memcmp.*:8", "memcpy.*:16", "strlen.*:8"], mode="safety",
                         replay_libs=ICU_LIBS, native_extra=["stubs/icu_norm_cheap.c", "stubs/alloc_fault.c"], object_bits=10, group="h17_alloc",
                         bounds={"call": {1: "cif_value_create(CHAR)", 2: "cif_value_clone -> new", 3: "cif_value_clone -> existing", 4: "cif_value_copy_char",
                                          5: "cif_value_parse_numb", 6: "cif_value_insert_element_at", 7: "cif_value_set_item_by_key", 8: "cif_value_get_keys",
                                          9: "cif_packet_create", 10: "cif_packet_set_item", 11: "cif_value_get_text", 12: "cif_normalize_name",
-                                         13: "cif_value_init(CHAR)", 14: "cif_u_strdup"}[t], "arguments": str(extra),
+                                         13: "cif_value_init(CHAR)", 14: "cif_u_strdup", 15: "cif_value_clone(number with su) -> existing"}[t], "arguments": str(extra),
                                 "failing allocation": "symbolic ordinal 0 (none) .. 14" if fa is None else ("none" if fa == 0 else "allocation number %d" % fa)},
                         note="one allocation failure" + (" at a symbolic site" if fa is None else " (site enumerated)")))
     return qs
@@ -564,7 +565,8 @@ DEFECTS = [("missing_value", "N", {"EXPECT_ERRS": "133", "EXPECT_SET": 1}), ("mi
            ("unexpected_term", "SNV", {"EXPECT_ERRS": "124", "EXPECT_SET": 1}), ("eof_in_frame", "HNV", {"EXPECT_ERRS": "126", "EXPECT_SET": 1}),
            ("nested_frame", "HHNVSS", {"EXPECT_ERRS": "123,124", "EXPECT_SET": 1}), ("frame_not_allowed", "HNVS", {"EXPECT_ERRS": "122", "MAXFRAMEDEPTH": 0, "EXPECT_SET": 1}),
            ("null_loop", "LV", {"EXPECT_ERRS": "37,134"}), ("empty_loop", "LN", {"EXPECT_ERRS": "36", "EXPECT_ADDP": 0}),
-           ("partial_packet", "LNNV", {"EXPECT_ERRS": "53", "EXPECT_ADDP": 1}), ("dup_item", "NVNV", {"EXPECT_ERRS": "41", "DUP_AT": 2, "EXPECT_SET": 1}),
+           ("partial_packet", "LNNV", {"EXPECT_ERRS": "53", "EXPECT_ADDP": 1}), ("partial_packet2", "LNNVVV", {"EXPECT_ERRS": "53", "EXPECT_ADDP": 2}),
+           ("partial_packet3", "LNNNVVVVNV", {"EXPECT_ERRS": "53", "EXPECT_ADDP": 2, "EXPECT_SET": 1}), ("dup_item", "NVNV", {"EXPECT_ERRS": "41", "DUP_AT": 2, "EXPECT_SET": 1}),
            ("dup_loop_name", "LNNVV", {"EXPECT_ERRS": "41", "DUP_AT": 2, "EXPECT_ADDP": 1})]
 
 
